@@ -28,7 +28,7 @@ from typing import Any
 
 import vgi_rpc.pool as P
 from dst.harness import RunCtx
-from dst.sched import BLOCKED, DONE, RUNNABLE, Scheduler, SimThreadHandle, SimTime
+from dst.sched import BLOCKED, RUNNABLE, Scheduler, SimThreadHandle, SimTime
 from sims import s5_pool as s5
 from vgi_rpc.rpc import AnnotatedBatch, RpcError
 
@@ -151,7 +151,6 @@ def run(ctx: RunCtx) -> None:
                          buggify=case["buggify"], violation=violation)
     world.simtime = simtime
     box: dict[str, Any] = {"pool": None, "hang": None, "self_inflicted": set()}
-    by_transport: dict[int, Any] = {}
 
     def idle_workers() -> list[Any]:
         pool = box["pool"]
